@@ -18,6 +18,7 @@ import CookModel.Lemmas.RoundtripSections
 import CookModel.Lemmas.RoundtripDocRecipe
 import CookModel.Lemmas.RoundtripRefs
 import CookModel.Lemmas.InterRefSpec
+import CookModel.Lemmas.RoundtripSectionsRefs
 import CookModel.Lemmas.ClosingStream
 import CookModel.Lemmas.CollectorRefIff
 import CookModel.Lemmas.CollectorShape
@@ -1318,5 +1319,58 @@ example : interRefTarget [.step ⟨[.text ['a']], 1⟩, .text ['x'], .step ⟨[.
     .ok ⟨.reference 2, some .step⟩ := by rfl
 example : interRefTarget [.step ⟨[.text ['a']], 1⟩, .text ['x'], .step ⟨[.text ['b']], 2⟩] 0 ⟨false, false, 3⟩ =
     .error "inter-ref-bounds" := by rfl
+
+/-! ### documents with ingredient references through the analysis pass -/
+
+/-- Analysis layer for documents in which an ingredient may also be a correctly written reference.
+    `blocks` as in `C01_analysis_doc`; an ingredient item is either a plain definition (`IngrSimple`) or
+    satisfies `IngrRefOK` RELATIVE TO THE TABLE OF THE INGREDIENTS WRITTEN BEFORE IT (`blocksOK`, which
+    threads `ingrTable` through the document): it carries `&` and not `+`, no intermediate data, its name has
+    an earlier non-REF definition — the last one, at `t` — which is a definition; it has no modifier that
+    definition lacks, no note, and its amount agrees with the definition's in being text or not
+    (ADVANCED_UNITS off for references).  Then `parse_events` returns
+    * `ingredients = ingrTable env (all ingredient events in order)`: the PURE table function that appends
+      a definition as written (`ingrOf`) and, for a reference, appends `asReference …` (relation = reference
+      to `t`, target kind ingredient, modifiers = written ∪ inherited ∪ REF) after rewriting the
+      definition at `t` to list the new index at the end of `referenced_from` (`ingrPush`); without
+      references it is the list of the written definitions (`C01_ingr_table_without_references`);
+    * sections, step numbers, item indices, cookware, timers, metadata map exactly as in `C01_analysis_doc`
+      (a reference occupies its own table index, so item indices still count the ingredient events before);
+    * the same diagnostics: only the `>>` deprecation notice, if any. -/
+theorem C01_analysis_doc_refs {α : Type} [Arith α] (env : Env) (input : Str)
+    (blocks : List (SBlock α)) (hok : blocksOK env [] blocks) :
+    ∃ c : Col α, parseEvents env input (blocks.flatMap SBlock.events) = ⟨some c, c.diags, none⟩ ∧
+      c.sections = docSecs env [] ⟨none, []⟩ 1 blocks ∧
+      c.ingredients = ingrTable env (ingrsOf (docStepItems blocks)) ∧
+      c.cookware.toList = (cwsOf (docStepItems blocks)).map (cwOf env) ∧
+      c.timers.toList = (timersOf (docStepItems blocks)).map (timerOf env) ∧
+      c.metaMap = docMeta env [] (docEntries blocks) ∧
+      c.diags = deprecation (docSpans (docEntries blocks)) ∧
+      c.inlineQ = #[] ∧ c.frontMatter = none :=
+  rtsr_parseEvents_doc env input blocks hok
+
+/-- without `&` the table function is the list of the written definitions -/
+theorem C01_ingr_table_without_references {α : Type} [Arith α] (env : Env) (l : List (Loc (PIngredient α)))
+    (h : ∀ li ∈ l, li.val.modifiers.val.contains Modifiers.REF = false) :
+    ingrTable env l = (l.map (ingrOf env)).toArray :=
+  rtsr_ingrTable_simple env l h
+
+/-! example: step `@salt{=1%tsp}`, a section line, step `@&salt`: the reference in the second section
+    resolves to the definition in the first; the conditions hold; the table in closed form -/
+def C01_exRefBlocks : List (SBlock Rat) :=
+  [.step [.ingredient C01_exSalt1], .sect (some (C01_txt "Later" 30)), .step [.ingredient C01_exSaltRef]]
+example : ingrTable C01_toyEnv (ingrsOf (docStepItems C01_exRefBlocks)) =
+    #[backlinked (ingrOf C01_toyEnv C01_exSalt1) [] 1 true none,
+      asReference (ingrOf C01_toyEnv C01_exSaltRef) (ingrOf C01_toyEnv C01_exSalt1).modifiers 0] := by rfl
+example : blocksOK C01_toyEnv [] C01_exRefBlocks := by
+  have h1 : IngrSimple C01_exSalt1 := ⟨rfl, by decide, by intro q hq; cases hq; intro _; exact ⟨rfl, rfl⟩⟩
+  refine ⟨⟨Or.inl h1, trivial⟩, by simp, ⟨⟨Or.inr ?_, trivial⟩, by simp, trivial⟩⟩
+  refine ⟨rfl, (fun q hq => by cases hq), (by decide), (by decide),
+    ⟨0, ingrOf C01_toyEnv C01_exSalt1, [], true, none, (by decide), rfl, rfl, (by decide),
+     ⟨(by decide), rfl, (by decide), (fun rq dq h => by cases h)⟩⟩⟩
+example : docSecs C01_toyEnv [] ⟨none, []⟩ 1 C01_exRefBlocks =
+    [⟨none, [.step ⟨[.ingredient 0], 1⟩]⟩, ⟨some "Later".toList, [.step ⟨[.ingredient 1], 1⟩]⟩] := by
+  simp [docSecs, C01_exRefBlocks, itemsFrom, SItem.toItem, ingrsOf, SItem.ingr?, Section.isEmpty, C01_txt, Text.trimmed,
+    Text.outerTrimmed, Text.text, trim, trimStart, trimEnd, hasDoubleSpace, C01_toyEnv, toyCharSpec]
 
 end Cook
